@@ -281,6 +281,18 @@ func runC14(r *Run, rng *rand.Rand, thorough bool) {
 			g, _, _ := r.Do("paillier.Decrypt/non-unit", true, "pai_decrypt", sN, sL, sPhi, eInt(c))
 			r.Assert(g == "err", "paillier.Decrypt/non-unit", "ciphertext-sharing-factor-refused", func() string { return eInt(c) + " " + g })
 		}
+		// the same through the complete private key (with its primes), also for products with a genuine ciphertext
+		for _, c := range []*big.Int{new(big.Int).Set(sk.P), new(big.Int).Set(sk.Q), new(big.Int).Lsh(sk.P, 1), new(big.Int).Mul(sk.P, sk.P),
+			new(big.Int).Mod(new(big.Int).Mul(sk.P, cts[0]), N2), new(big.Int).Mod(new(big.Int).Mul(sk.Q, cts[0]), N2)} {
+			var err error
+			var pan interface{}
+			func() {
+				defer func() { pan = recover() }()
+				_, err = sk.Decrypt(c)
+			}()
+			r.Evals++
+			r.Assert(pan == nil && err != nil, "paillier.Decrypt/non-unit-complete-key", "ciphertext-sharing-factor-refused", func() string { return fmt.Sprint(eInt(c), " err=", err, " panic=", pan) })
+		}
 		// key-correctness proof (only meaningful for the protocol-sized keys, but the ops are exact for all)
 		if k.name == "vendored-2048" { // GenerateXs needs a 256-bit hash block to fall below N: only protocol-sized moduli
 			kk := randInt(rng, 256)
